@@ -11,7 +11,7 @@ func init() {
 		requiredProbes: []string{
 			"probe_refill_unfinished_token", "eof_with_data", "fault_zero_before_eof", "fault_error_with_data", "fault_error_without_data",
 			"probe_held_expired", "probe_held_verified_after_swap", "probe_shiftext_had_to_read", "probe_memory_family_runs",
-			"probe_peekrune_multibyte", "fault_zero_read", "fault_short_read", "probe_drained_to_end", "probe_long_input", "probe_huge_input", "probe_memory_family_lagged_free", "probe_memory_family_skips",
+			"probe_peekrune_multibyte", "fault_zero_read", "fault_short_read", "probe_drained_to_end", "probe_long_input", "probe_huge_input", "probe_memory_family_lagged_free", "probe_memory_family_skips", "fault_error_reported_once_then_eof", "fault_error_transient_source_carries_on",
 		},
 		rule: "one run = one seeded history (swarm-configured operation mix, buffer size, Free discipline) on the real buffer.StreamLexer over a simulated reader whose chunking/zero reads/EOF style/failure point are drawn per Read call; non-trivial = at least one refill happened while a token was unfinished, or an injected reader failure fired, or the run belongs to the long-stream memory family; distinct = hash of the sequence (operation kind, refill kind caused) differs",
 		realStub: map[string][]string{
@@ -19,6 +19,7 @@ func init() {
 			"stub": {"faultio.Reader (io.Reader)", "the caller (operation generator)", "reference cursor model (oracle)"},
 		},
 		assumptions: []string{
+			"a call is judged not to return (<P>/hang) when the process spends 20 s of CPU time without a single simulator event while the run's goroutine is inside the library; the slowest legitimate operation costs milliseconds",
 			"held-slice guarantee threshold = bytes shifted when the slice was handed out (DESIGN.md 3.1)",
 			"operation sequences respect the documented contract (no move past the end; moves over unpeeked bytes only directly before Shift)",
 			"memory held is read by reflection from StreamLexer.buf and pool; if the fields are renamed the bound is not checked and the evidence says so",
@@ -31,7 +32,7 @@ func init() {
 		requiredProbes: []string{
 			"probe_terminator_borrowed", "probe_restore_after_borrow", "probe_ctor_reader_failed", "probe_ctor_reader_chunked",
 			"probe_peekrune_i_gt0_near_end", "probe_peekrune_multibyte", "probe_peekrune_truncated_at_end", "probe_peekrune_invalid_or_truncated",
-			"probe_scanned_to_end", "probe_big_input", "probe_sibling_instance", "probe_sized_reader_partially_consumed", "fault_error_with_data", "fault_error_without_data", "fault_zero_read", "eof_with_data",
+			"probe_scanned_to_end", "probe_big_input", "probe_sibling_instance", "probe_sized_reader_partially_consumed", "fault_error_with_data", "fault_error_without_data", "fault_zero_read", "eof_with_data", "fault_error_reported_once_then_eof", "fault_error_transient_source_carries_on", "probe_reader_over_writer_bytes", "probe_buffer_reader_partially_consumed",
 		},
 		rule: "one run = one seeded cursor history on a real parse.Input or buffer.Lexer built through a tape-chosen constructor (bytes with/without spare capacity and tape-chosen garbage behind the input, string, simulated reader with chunking/zero reads/EOF styles/failure at byte k, three kinds of Bytes() readers, nil); non-trivial = the constructor's reader chunked or failed, or the terminator was borrowed from the caller's array, or PeekRune(i>0) was issued within 4 bytes of the end; distinct = hash of (type, constructor, failure, operation-kind sequence, distance-to-end class of each rune operation)",
 		realStub: map[string][]string{
@@ -39,6 +40,7 @@ func init() {
 			"stub": {"faultio.Reader (io.Reader, with and without Bytes())", "the caller (operation generator, owner of the backing array)", "reference cursor (oracle), unicode/utf8 (oracle)"},
 		},
 		assumptions: []string{
+			"a call is judged not to return (<P>/hang) when the process spends 20 s of CPU time without a single simulator event while the run's goroutine is inside the library; the slowest legitimate operation costs milliseconds",
 			"operation sequences respect the documented contract: start <= pos <= len, Restore only as the last call, PeekRune/MoveRune not issued at the end position itself",
 			"after construction there is no I/O left to fault: the history half is model-based exploration of a sequential API under the simulator's generator, replay and shrinker (DESIGN.md 3.2)",
 		},
@@ -52,7 +54,7 @@ func init() {
 			"fault_truncated", "fault_short_read", "eof_with_data", "eof_with_exact_fit", "fault_error_with_data", "fault_error_without_data",
 			"probe_typed_read_ran_past_end", "probe_typed_read_straddles_end", "probe_mirror_runs", "probe_clone", "probe_iotest_runs",
 			"probe_ioerr_runs", "probe_ioerr_read_crossed_failure", "probe_ioerr_constructor_failed", "probe_bitmap_runs", "probe_bitmap_full_buffer",
-			"probe_parallel_runs", "probe_parallel_task_switches", "probe_big_blob", "probe_huge_readbytes", "probe_seek_outside", "probe_stale_size_overrun", "probe_binaryreader_passthrough", "probe_rejected_request", "probe_ioerr_sibling_read", "probe_byte_order_switched", "probe_bitmap_recycled_buffer", "probe_bitmap_large",
+			"probe_parallel_runs", "probe_parallel_task_switches", "probe_big_blob", "probe_huge_readbytes", "probe_seek_outside", "probe_stale_size_overrun", "probe_binaryreader_passthrough", "probe_rejected_request", "probe_ioerr_sibling_read", "probe_byte_order_switched", "probe_bitmap_recycled_buffer", "probe_bitmap_large", "probe_file_handle_offset_not_zero",
 		},
 		rule: "one run = one seeded history: typed writes through the real BinaryWriter (both byte orders, optional prefix), truncation at a tape-chosen byte, then typed reads / ReadBytes / Read / ReadAt / Seek / Clone on the real BinaryReader over one of 15 constructors (memory, reader with Bytes(), simulated ReadSeeker with and without size, simulated ReaderAt, ReadAll path, streaming reader, real file by handle and by path, mmap by path and by handle, bytes.Reader, strings.Reader, io.SectionReader, os.File through the generic constructor; sometimes the resulting *BinaryReader is handed to the constructor again) with short reads and both EOF styles drawn per Read call; separate families: injected non-EOF failure at byte F, torn source (announced size larger than the data), bitmap writer/reader (incl. recycled buffers and >2^16 bits), and 2-4 parallel ReadAt/Clone callers interleaved at every Seek/Read/ReadAt of the shared source by the seeded scheduler; non-trivial = truncated, or a short read / EOF-with-data / exact-fit EOF fired, or a failure was injected, or a bitmap run with >=1 bit, or a scheduled run with a contended lock or >=3 task switches; distinct = hash of (backend, byte order, operation-kind sequence, whence values, schedule)",
 		realStub: map[string][]string{
@@ -60,6 +62,7 @@ func init() {
 			"stub": {"faultio.Reader / ReadSeeker / ReaderAt (simulated sources)", "caller tasks and the baton scheduler", "encoding/binary + bytes.Reader.Seek + testing/iotest.TestReader (reference models)"},
 		},
 		assumptions: []string{
+			"a call is judged not to return (<P>/hang) when the process spends 20 s of CPU time without a single simulator event while the run's goroutine is inside the library; the slowest legitimate operation costs milliseconds",
 			"(0,nil) reads are not injected: BinaryReader turns them into an error and the property is silent about them",
 			"after the first read past the end no Seek is generated; Pos is then only required to stay within [0,size] with Pos+Len == size",
 			"under an injected non-EOF failure only: no panic, reads entirely before F right, never a non-zero value across F",
@@ -82,6 +85,7 @@ func init() {
 			"stub": {"caller tasks (workloads)", "baton scheduler", "yielding reader / writer / visitor", "vyield hook calls inserted into a scratch copy of the library for the instrumented build (the library code itself is unchanged)"},
 		},
 		assumptions: []string{
+			"a call is judged not to return (<P>/hang) when the process spends 20 s of CPU time without a single simulator event while the run's goroutine is inside the library; the slowest legitimate operation costs milliseconds",
 			"inside library calls tasks are preempted only in the workers that run the instrumented build (a yield hook at every function entry and loop iteration of a scratch copy of the library; parking at every period-th hook), and that is sampled, not exhaustive; the race detector, to which the scheduler adds no happens-before edge, covers every access pair regardless of the interleaving",
 			"a synchronised cache (sync.Pool/Once/mutex) is not a violation; only a wrong transcript, a changed exported package variable or a race report with a frame in the library is",
 			"a panic of the library is an outcome that is compared, not a failure of this check (crash freedom is property C01, not claimed)",
